@@ -87,8 +87,8 @@ theorem localOk_mono (rc : Nat) (consts : List CKind) (look look' : Nat → Opti
         cases hs : succPcs a with
         | none => simp [he, hs] at h4
         | some ps =>
-          simp only [he, hs, Bool.and_eq_true, List.all_eq_true] at h4 ⊢
-          exact ⟨h4.1, fun p hp => hany p _ (h4.2 p hp)⟩
+          simp only [he, hs, List.all_eq_true] at h4 ⊢
+          exact fun p hp => hany p _ (h4 p hp)
 
 theorem checkFrom_all (rc : Nat) (consts : List CKind) (lo : Nat) (l : List Ann)
     (hs : pcsFrom lo l = true) :
@@ -112,7 +112,7 @@ structure LocalFacts (rc : Nat) (consts : List CKind) (l : List Ann) (a : Ann) :
   consts : ∀ kc ∈ constOperands a.ins.fields a.ins.args, consts[kc.2]? = some kc.1
   succs : ∃ ps, succPcs a = some ps ∧ ∀ p ∈ ps, ∃ b, findPc l p = some b
   flow : ∀ d, a.d = some d → ∃ d' ps, applyEff a.ins.op d = some d' ∧ succPcs a = some ps
-    ∧ exitOk a.ins.op d = true ∧ ∀ p ∈ ps, ∃ b, findPc l p = some b ∧ b.d = some d'
+    ∧ ∀ p ∈ ps, ∃ b, findPc l p = some b ∧ b.d = some d'
 
 theorem localFacts_of_localOk (rc : Nat) (consts : List CKind) (l : List Ann) (a : Ann)
     (h : localOk rc consts (findPc l) a = true) : LocalFacts rc consts l a := by
@@ -136,9 +136,9 @@ theorem localFacts_of_localOk (rc : Nat) (consts : List CKind) (l : List Ann) (a
       cases hs : succPcs a with
       | none => simp [he, hs] at h4
       | some ps =>
-        simp only [he, hs, Bool.and_eq_true, List.all_eq_true] at h4
-        refine ⟨d', ps, rfl, rfl, h4.1, fun p hp => ?_⟩
-        have := h4.2 p hp
+        simp only [he, hs, List.all_eq_true] at h4
+        refine ⟨d', ps, rfl, rfl, fun p hp => ?_⟩
+        have := h4 p hp
         cases hb : findPc l p with
         | none => simp [hb] at this
         | some b => simp [hb] at this; exact ⟨b, rfl, this⟩
@@ -243,7 +243,7 @@ theorem good_step (consts : List CKind) (base need : Nat) (l : List Ann)
     rw [hfa] at hf
     cases hf
     have hmem := (findPc_some _ _ _ hfa).1
-    obtain ⟨d', ps', he, hs', _, hflow⟩ := (hall a hmem).flow _ hda
+    obtain ⟨d', ps', he, hs', hflow⟩ := (hall a hmem).flow _ hda
     rw [hs] at hs'
     cases hs'
     obtain ⟨c2, hv2, hd', hc2⟩ := effect_agree l a c d' ps he hs hflow hcs
@@ -270,17 +270,15 @@ theorem good_no_fault (consts : List CKind) (base need : Nat) (l : List Ann)
   obtain ⟨a0, _, _, _, _, hall⟩ := h.entry
   obtain ⟨⟨a, hfa, hda⟩, hcs⟩ := hg
   have hmem := (findPc_some _ _ _ hfa).1
-  obtain ⟨d', ps, he, hs, hexit, hflow⟩ := (hall a hmem).flow _ hda
+  obtain ⟨d', ps, he, hs, hflow⟩ := (hall a hmem).flow _ hda
   obtain ⟨c2, hv2, _, _⟩ := effect_agree l a c d' ps he hs hflow hcs
   unfold Fault
   rw [hfa]
   simp only [hv2, hs]
   intro hf
-  rcases hf with hf | hf | ⟨hret, hf⟩
+  rcases hf with hf | hf
   · simp at hf
   · simp at hf
-  · simp [exitOk, hret] at hexit
-    omega
 
 /-! ### from the chunk to its units -/
 
